@@ -1,4 +1,6 @@
 import IbicusModel.Props.C07
+import IbicusModel.Props.Calendar
+import IbicusModel.Props.CalendarAgree
 -- property theorems
 #print axioms Props.C07.postInit_ok
 #print axioms Props.C07.postInit_error_iff
@@ -26,3 +28,15 @@ import IbicusModel.Props.C07
 #print axioms Lemmas.GenWindows.get_years_in_window
 #print axioms Lemmas.GenWindows.get_years_in_window_that_are_adjusted
 #print axioms Lemmas.GenWindows.get_years_forming_window_centers
+-- calendar model (tied by the DrvCalendar correspondence): day of year in range, successor day, every day of year present
+-- in a whole year, injectivity, the inferred calendar, the seasons
+#print axioms Props.Calendar.dayOfYear_range
+#print axioms Props.Calendar.valid_next
+#print axioms Props.Calendar.dayOfYear_next
+#print axioms Props.Calendar.dayOfYear_surjective
+#print axioms Props.Calendar.dayOfYear_injective
+#print axioms Props.Calendar.run_valid
+#print axioms Props.Calendar.inferred_valid
+#print axioms Props.Calendar.season_partition
+-- the two models of the inferred calendar (successor-day iteration / year arithmetic) agree on year and day of year
+#print axioms Props.CalendarAgree.inferred_agree
